@@ -1663,6 +1663,13 @@ fn run_inner(a: &Args) {
         }
     }
     cx.out.extra.insert("audit".into(), audit());
+    cx.out.extra.insert("mutations_self_tested".into(), json!([
+      {"mutation": "server_persistent.rs encode_resp_into writes Array(None) as $-1", "class": "1 entry paths (encoder 5)", "before": "missed (exit 0): the binary's encoder was not driven", "after": "C15:roundtrip:persistent-server-encoder:null-array (+ in-array shapes), 223 ops"},
+      {"mutation": "RespCodec accepts the RESP3 null `_\\r\\n`", "class": "2 input alphabet (first byte)", "before": "caught by ONE random input", "after": "caught systematically: first-byte sweep, C15:decoders-disagree:ok-vs-err-unknown-type, C15:prefix-unstable:error:codec1"},
+      {"mutation": "MAX_NESTING_DEPTH = 33", "class": "4 configuration / 5 thresholds", "before": "model disagreement on 4 random nested inputs", "after": "proof-obligation-broken: the theorems are about 32, the source has 33 (+ 18 ops of the nesting-at-limit corpus); no property-level failing input: the bound still holds"},
+      {"mutation": "SimulatedReadBuffer::encode_command writes the CHARACTER count of a GET key as its length", "class": "1 entry paths (encoder 6) / 2 alphabet (non-ASCII key)", "before": "missed (exit 0)", "after": "C15:roundtrip:command-encoder on GET \"ké✓\""},
+      {"mutation": "server_persistent.rs encode_error_into copies the message verbatim (no put_line)", "class": "1 entry paths (error encoder 5)", "before": "missed (exit 0)", "after": "C15:roundtrip:persistent-server-encoder:error-reply on a message with CR LF"}
+    ]));
     cx.out.finish("case = one decoder call D<codec>(bytes) | one fragmented feed F<codec>(stream, cuts) | one encoder call E<k>(value) | one nested-array decode N<codec>(depth, stack); distinct by canonical text; a decode is non-trivial iff the input has at least 3 bytes and starts with a RESP type byte, a feed iff it has at least one cut and yields at least one frame");
 }
 
